@@ -369,7 +369,7 @@ func init() {
 		},
 		Batches:    func(t string) int { return pick(t, 4, 16) },
 		Floor:      func(t string) int { return pick(t, 300, 5000) },
-		TimeoutSec: func(t string) int { return pick(t, 600, 3000) },
+		TimeoutSec: func(t string) int { return pick(t, 120, 3000) },
 		Prepare:    lexProgPrepare("C04", func(t string) int { return pick(t, 25, 80) }),
 		Child:      c04Child,
 	})
